@@ -31,6 +31,7 @@ RULE = ("reducer case = one null pattern x dtype, run for every function x n_thr
         "boolean frame; binning case = one edge set x every probe value; non-trivial = more than one "
         "element / block")
 ASSUMPTIONS = [
+    'pretty_cut also with int8 / uint8 / int16 values and bin edges inside and outside their range',
     'footprint sub-spaces: write-write conflicts between the per-block / per-column reducer tasks (f8, i4, i8, u1; all 2-D cases)',
     "array length <= 8 (quick) / 10 (thorough) for the 1-D reducers",
     "values from the position table (dyadic), var/std compared with relative tolerance 1e-9",
